@@ -4,13 +4,14 @@ import torch
 class PipelineModule(torch.nn.Module):
     """Only isinstance() and .topology() are used by kfac.gpt_neox."""
 
-    def __init__(self, layers=None, topology=None):
+    def __init__(self, layers=None, topology=None, index_offset=0):
         super().__init__()
+        self._off = index_offset
         # as DeepSpeed's PipelineModule._build(): every layer is a direct child named by its global layer index
         self._n = 0
         if layers is not None:
             for i, l in enumerate(list(layers.children()) if isinstance(layers, torch.nn.Module) and not isinstance(layers, torch.nn.Linear) else list(layers)):
-                self.add_module(str(i), l)
+                self.add_module(str(index_offset + i), l)
                 self._n += 1
         self._topo = topology
 
@@ -19,5 +20,5 @@ class PipelineModule(torch.nn.Module):
 
     def forward(self, x):
         for i in range(self._n):
-            x = getattr(self, str(i))(x)
+            x = getattr(self, str(self._off + i))(x)
         return x
